@@ -35,12 +35,13 @@ def scratch_keyring():
     """per-process keyring directory holding one known cookie"""
     pid = os.getpid()
     if pid not in _SCRATCH:
-        d = tempfile.mkdtemp(prefix='mcx-ckr-')
-        os.chmod(d, 0o700)
+        home = tempfile.mkdtemp(prefix='mcx-home-')
+        d = os.path.join(home, '.dbus-keyrings')
+        os.mkdir(d, 0o700)
         with open(os.path.join(d, 'ctx'), 'wb') as f:
             f.write(b'41 1700000000 ' + COOKIE + b'\n')
         _SCRATCH[pid] = d
-        atexit.register(shutil.rmtree, d, True)
+        atexit.register(shutil.rmtree, home, True)
     return _SCRATCH[pid]
 
 
@@ -60,36 +61,26 @@ LINES = [
 OUTSIDE = {b'BEGIN', b'FOO', b'', b'OK', b'OK zz'}
 
 
-class _DetOS:
-    """the os module with a deterministic urandom (the client's cookie
-    challenge), so that two runs of one schedule give the same transcript"""
+def _det_urandom(n):
+    return b'\x42' * n
 
-    def __getattr__(self, name):
-        return getattr(os, name)
 
-    @staticmethod
-    def urandom(n):
-        return b'\x42' * n
-
-    class path:
-        """os.path with the home directory's keyring redirected into the
-        scratch keyring (the client looks in ~/.dbus-keyrings)"""
-        join = staticmethod(os.path.join)
-        exists = staticmethod(os.path.exists)
-        isdir = staticmethod(os.path.isdir)
-
-        @staticmethod
-        def expanduser(p):
-            if p == '~/.dbus-keyrings':
-                return scratch_keyring()
-            return os.path.expanduser(p)
+def _own_environment():
+    """The two pieces of environment the client reads during a cookie
+    exchange, owned by the harness without reaching into the library:
+    os.urandom (the client's challenge - fixed, so that two runs of one
+    schedule give one transcript) and $HOME (so that ~/.dbus-keyrings is the
+    scratch keyring)."""
+    if os.urandom is not _det_urandom:
+        os.urandom = _det_urandom
+    home = os.path.dirname(scratch_keyring())
+    if os.environ.get('HOME') != home:
+        os.environ['HOME'] = home
 
 
 def make_client(unix):
     from txdbus import protocol as P, authentication as A
-    keyring = scratch_keyring()
-    if not isinstance(A.os, _DetOS):
-        A.os = _DetOS()
+    _own_environment()
 
     class Rec(P.BasicDBusProtocol):
         _client = True
@@ -636,8 +627,8 @@ def run(ctx):
         'transcript of line-by-line delivery'
         % (len(LINES), 2 if ctx.quick else 3))
     ctx.assumptions = [
-        'the cookie keyring ~/.dbus-keyrings is redirected to a scratch '
-        'directory by wrapping the os module seen by txdbus.authentication',
+        '$HOME points at a scratch directory holding .dbus-keyrings; '
+        'os.urandom is fixed in the checker process',
         'which of OK-without-GUID / bad GUID / unknown / empty / BEGIN / '
         'unsolicited AGREE_UNIX_FD is "outside the protocol" is fixed in '
         'OUTSIDE']
